@@ -205,6 +205,17 @@ def gen_layout(rng, tname=None):
         for _ in range(rng.randint(1, 3)):
             items.append(("assume", rng.choice([org >> 8, (org >> 8) + 1, 0, (org >> 8) + rng.below(3)]) & 0xFF))
     rng.shuffle(items)
+    if rng.chance(0.3):
+        # a reference, a filler of critical length and the label it refers to, right next to each other (either order):
+        # distances of exactly 126..130, 254..258 bytes between the instruction and its target
+        lab = rng.below(nlab)
+        sized = [m for m in sorted(t.forms) if len(t.forms[m]) > 1 or m in t.short or t.forms[m][0][1] == "b68"]
+        mn = rng.choice(sized or sorted(t.forms))  # statements whose size or validity depends on the distance
+        fill = ("fill", rng.choice([122, 123, 124, 125, 126, 127, 128, 129, 130, 131, 250, 251, 252, 253, 254, 255, 256, 257, 258]))
+        items = [it for it in items if not (it[0] == "label" and it[1] == lab)]
+        at = rng.randint(0, len(items))
+        trio = [("ref", mn, lab), fill, ("label", lab)] if rng.chance(0.6) else [("label", lab), fill, ("ref", mn, lab)]
+        items[at:at] = trio
     # worst-case positions (max sizes) to keep short-only branches encodable
     def maxsize(it):
         if it[0] == "label":
